@@ -14,6 +14,17 @@ STMT_REQUESTS = [
     "runtime/timeutil/timeutil.go:CleanupTimer"]
 
 
+def install(ctx, out, new):
+    """checklib.write_gen, except that an unchanged file (the normal case on the unchanged tree) is left alone without
+    waiting for the lock of the shared lake project, which other owners' builds hold for minutes when the machine is busy."""
+    try:
+        if open(out).read() == new:
+            return
+    except OSError:
+        pass
+    checklib.write_gen(ctx, out, new)
+
+
 def regen_stmts(ctx):
     """Regenerates lean/Hive/Gen/C08_Stmts.lean: the normalised statements (guards, arguments, constants, index
     expressions) of the anchored functions, pinned by the `C08_stmts_*` theorems."""
@@ -23,7 +34,7 @@ def regen_stmts(ctx):
     rc, log = checklib.sh(args, cwd=checklib.HARNESS, timeout=600)
     if rc != 0 or not os.path.exists(tmp):
         return [{"kind": "skeleton-extractor", "detail": checklib.tail(log, 20)}]
-    checklib.write_gen(ctx, out, open(tmp).read())
+    install(ctx, out, open(tmp).read())
     return []
 
 
@@ -37,7 +48,7 @@ def regen_coll(ctx):
     rc, log = checklib.sh(args, cwd=checklib.HARNESS, timeout=600)
     if rc != 0 or not os.path.exists(tmp):
         return [{"kind": "skeleton-extractor", "detail": checklib.tail(log, 20)}]
-    checklib.write_gen(ctx, out, open(tmp).read())
+    install(ctx, out, open(tmp).read())
     return []
 
 
@@ -51,7 +62,7 @@ def regen_calls(ctx):
     rc, log = checklib.sh(args, cwd=checklib.HARNESS, timeout=600)
     if rc != 0 or not os.path.exists(tmp):
         return [{"kind": "skeleton-extractor", "detail": checklib.tail(log, 20)}]
-    checklib.write_gen(ctx, out, open(tmp).read())
+    install(ctx, out, open(tmp).read())
     return []
 
 
@@ -65,7 +76,7 @@ def regen_loop(ctx):
     rc, log = checklib.sh(args, cwd=checklib.HARNESS, timeout=600)
     if rc != 0 or not os.path.exists(tmp):
         return [{"kind": "skeleton-extractor", "detail": checklib.tail(log, 20)}]
-    checklib.write_gen(ctx, out, open(tmp).read())
+    install(ctx, out, open(tmp).read())
     return []
 
 
